@@ -62,7 +62,13 @@ fn ranges_of(set: &BTreeSet<u64>) -> Vec<(u64, u64)> {
 }
 
 fn build_state(me: usize, sides: &[ActorSide], extra: Option<(usize, u64)>) -> SyncStateV1 {
-    let mut st = SyncStateV1 { actor_id: actor(me), ..Default::default() };
+    build_state_ids(actor(me), sides, extra.map(|(who, head)| (actor(who), head)))
+}
+
+/// the same with explicit actor ids for the advertising node and the extra head (used by the `wire` sub-campaign,
+/// where "we" are a real node with an actor id of its own)
+pub fn build_state_ids(me: ActorId, sides: &[ActorSide], extra: Option<(ActorId, u64)>) -> SyncStateV1 {
+    let mut st = SyncStateV1 { actor_id: me, ..Default::default() };
     for (i, side) in sides.iter().enumerate() {
         let Some(vs) = &side.versions else { continue };
         if vs.is_empty() {
@@ -86,13 +92,13 @@ fn build_state(me: usize, sides: &[ActorSide], extra: Option<(usize, u64)>) -> S
     }
     if let Some((who, head)) = extra {
         if head > 0 {
-            st.heads.insert(actor(who), CrsqlDbVersion(head));
+            st.heads.insert(who, CrsqlDbVersion(head));
         }
     }
     st
 }
 
-fn side_strategy(max_head: usize, last_seqs: Vec<u64>) -> impl Strategy<Value = ActorSide> {
+pub fn side_strategy(max_head: usize, last_seqs: Vec<u64>) -> impl Strategy<Value = ActorSide> {
     // class weights shift per side so that "mostly held", "mostly needed" and mixed sides all occur
     (0usize..=max_head, any::<u8>(), proptest::collection::vec((any::<u8>(), any::<u16>()), max_head), prop_oneof![1 => Just(true), 6 => Just(false)])
         .prop_map(move |(head, bias, picks, unknown)| {
@@ -315,9 +321,13 @@ pub fn run(ctx: &Ctx, rep: &mut Report) {
         Tier::Thorough => 5_000_000,
     };
     run_prop(ctx, rep, "pairs", pair_strategy(), n, 6000, check_pair);
+    crate::c04b::run(ctx, rep);
 }
 
-pub fn replay(_sub: &str, case: &serde_json::Value) -> Result<CaseInfo, Fail> {
+pub fn replay(sub: &str, case: &serde_json::Value) -> Result<CaseInfo, Fail> {
+    if sub.starts_with("wire") {
+        return crate::c04b::replay(case);
+    }
     replay_case::<Pair, _>(case, check_pair)
 }
 
